@@ -83,6 +83,7 @@ func (m *CPU) Run(app risc.Application) (int, error) {
 	}()
 	cycle := 0
 	for {
+		m.ctx.VerifTick()
 		cycle++
 		log.Info(m.ctx, "Cycle %d", cycle)
 		m.decodeBus.Connect(cycle)
@@ -132,6 +133,7 @@ func (m *CPU) Run(app risc.Application) (int, error) {
 			cycle++
 			m.writeBus.Connect(cycle)
 			for !m.areWriteUnitsEmpty() || !m.writeBus.IsEmpty() {
+				m.ctx.VerifTick()
 				for _, wu := range m.writeUnits {
 					_ = wu.Cycle(wuReq{m.ctx, -1})
 				}
@@ -150,6 +152,7 @@ func (m *CPU) Run(app risc.Application) (int, error) {
 			fromCycle := cycle
 
 			for {
+				m.ctx.VerifTick()
 				isEmpty := true
 				cycle++
 				for _, eu := range m.executeUnits {
@@ -171,6 +174,7 @@ func (m *CPU) Run(app risc.Application) (int, error) {
 				m.writeBus.Connect(cycle + 1)
 				for _, wu := range m.writeUnits {
 					for !wu.isEmpty() || !m.writeBus.IsEmpty() {
+						m.ctx.VerifTick()
 						_ = wu.Cycle(wuReq{m.ctx, sequenceID})
 					}
 				}
